@@ -243,8 +243,8 @@ def tm_service_from_bytes(data: Bytes):
 @obligation(["C03", "C04", "C11"], "PusTm/setters", verifies=[M + "PusTm.tm_data", M + "PusTm.apid", M + "PusTm.to_space_packet", M + "PusTm.pack"])
 def tm_setters(service: IntRange(0, 255), subservice: IntRange(0, 255), apid: IntRange(0, 2047), count: IntRange(0, 16383),
                msg: IntRange(0, 65535), dest: IntRange(0, 65535), tref: IntRange(0, 15), ver: IntRange(0, 7),
-               ts: Bytes, src: Bytes, which: Choice("tm_data", "apid"), new_src: Bytes, new_apid: IntRange(0, 2047),
-               packed_before: Bool):
+               ts: Bytes, src: Bytes, which: Choice("tm_data", "apid", "sec.message_counter", "sec.dest_id", "sph.seq_count"),
+               new_src: Bytes, new_apid: IntRange(0, 2047), new16: IntRange(0, 65535), new14: IntRange(0, 16383), packed_before: Bool, view_first: Bool):
     """whatever was set after construction (packed before or not - packing fills the CRC cache): length, length field, octets,
     CRC trailer and space-packet view are those of a freshly built telemetry packet with the final values"""
     requires(len(ts) + len(src) <= MAX_VAR)
@@ -255,13 +255,28 @@ def tm_setters(service: IntRange(0, 255), subservice: IntRange(0, 255), apid: In
     if which == "tm_data":
         tm.tm_data = new_src
         expected = pus_tm_octets(ver, apid, count, service, subservice, msg, dest, tref, ts, new_src)
-    else:
+    elif which == "apid":
         tm.apid = new_apid
         expected = pus_tm_octets(ver, new_apid, count, service, subservice, msg, dest, tref, ts, src)
-    view = tm.to_space_packet().pack()
-    ensures("space-packet-view-as-fresh", view == expected)
-    r = tm.pack()
-    ensures("octets-as-fresh", r == expected)
+    elif which == "sec.message_counter":        # fields changed through the public header objects
+        tm.pus_tm_sec_header.message_counter = new16
+        expected = pus_tm_octets(ver, apid, count, service, subservice, new16, dest, tref, ts, src)
+    elif which == "sec.dest_id":
+        tm.pus_tm_sec_header.dest_id = new16
+        expected = pus_tm_octets(ver, apid, count, service, subservice, msg, new16, tref, ts, src)
+    else:
+        tm.space_packet_header.seq_count = new14
+        expected = pus_tm_octets(ver, apid, new14, service, subservice, msg, dest, tref, ts, src)
+    if view_first:     # both orders: either call may refresh a cached CRC and hide a stale one from the other
+        view = tm.to_space_packet().pack()
+        ensures("space-packet-view-as-fresh", view == expected)
+        r = tm.pack()
+        ensures("octets-as-fresh", r == expected)
+    else:
+        r = tm.pack()
+        ensures("octets-as-fresh", r == expected)
+        view = tm.to_space_packet().pack()
+        ensures("space-packet-view-as-fresh", view == expected)
     ensures("reported-length", both(tm.packet_len == len(r), tm.sp_header.data_len == len(r) - 7))
     ensures("crc-residue", crc16(r) == 0)
     ensures("view-after-pack", tm.to_space_packet().pack() == expected)
